@@ -275,9 +275,13 @@ class bin_stream_container(bin_stream):
 
     def _getbytes(self, start, l=1):
         try:
-            return self.bin.virt.get(start, start + l)
+            data = self.bin.virt.get(start, start + l)
         except ValueError:
             raise IOError("cannot get bytes")
+        if len(data) != l:
+            # The container truncates a read which crosses its end
+            raise IOError("not enough bytes")
+        return data
 
     def __bytes__(self):
         return self.bin.virt.get(self.offset, self.offset + self.l)
